@@ -29,5 +29,7 @@ def run(P, R, L):
     R.clause("ORD-3", "outputs are installed only without error; inputs are deleted only after installation")
     K.ord3_tables(P, R, L)
     K.ord3_flush(P, R, L)
+    R.clause("GRD-17", "a flushed table is placed below level 0 only while nothing in level 0 or in the next level overlaps its range")
+    K.grd17_memtable_output_level(P, R, L)
     R.not_decided += ["picking policy", "overlap computation for a concrete layout", "boundary-file expansion results",
                       "find_smallest_boundary_file's accumulator (Option<Arc<FileMetadata>> compared through a closure) is not resolved by ACC-1"]
